@@ -22,6 +22,8 @@ TEXT = {
               'worklist exit-condition rule + def-use of the limit'),
     'C10': _t('Decides: twins of the normal forms deep-copy and call the in-place sibling; pda_to_cfg does not touch its argument. Not decided: language equality.',
               'twin-pairing rule + effect summaries'),
+    'C11': _t('Decides: head sign (left clamped at 0), missing-transition default, blank extension; verdict loop and trace loop agree; step precondition at every call incl. the first; verdicts only on halting states; same budget. Not decided: step-by-step agreement with delta.',
+              'extracted head-update model evaluated in the analyser + must-hold dataflow for the step precondition + sibling skeleton comparison'),
     'C12': _t('Decides: K1 no recorded feedback is dropped, K2 OK exclusivity, K3 handlers report, K4 answer/reference roles and message polarity, K5 minimal counterexample, K6 same bound, K7 state-limit polarity. Not decided: completeness of each structural criterion.',
               'CFG reachability/kill analysis of feedback accumulators + role taint from notebook templates + extracted integer model'),
     'C14': _t('Decides: totalisation twin, reachability search discipline, operands untouched / not shared. Not decided: language identities of the constructions.',
